@@ -300,10 +300,14 @@ def _strategy():
                 wc["use_sockets"] = True
                 refs = []
                 parts = ["prog-%s" % wc["name"]]
+                if draw(st.booleans()):
+                    # (more placeholders in the same string)
+                    parts += ['--wid', '$(circus.wid)', '--name',
+                              '$(circus.name)'][:draw(st.sampled_from([2, 4]))]
                 as_args = draw(st.booleans())
                 arglist = []
                 for sp in draw(st.lists(st.sampled_from(socks), min_size=1,
-                                        max_size=2,
+                                        max_size=3,
                                         unique_by=lambda s: s["name"])):
                     nm = sp["name"]
                     if sp.get("reuseport"):
